@@ -121,6 +121,8 @@ def gen_pat(draw, d):
             k = ['type', draw(st.sampled_from(['str', 'int', 'object']))]
         elif kk < 82:
             k = ['req', ['type', draw(st.sampled_from(['str', 'int', 'object']))]]
+        elif kk < 78 and kk >= 74 or kk in (88, 89):
+            k = ['kf', ['a', 'b', 1]]         # frozenset of constants: matches every frozenset key made of these
         elif kk < 96:
             # (plain callables are not generated as dict KEYS: the property's domain lists literal, type,
             # Optional, Required and compound keys; glom classes a callable key as an "== constant")
@@ -149,6 +151,9 @@ def key_sample(draw, k):
                 'object': draw(st.sampled_from(['o1', 7]))}[k[1]]
     if tag == 'pred':
         return {'isint': draw(st.sampled_from([8, 9])), 'shortstr': draw(st.sampled_from(['q', 'r']))}[k[1]]
+    if tag == 'kf':
+        n_ = draw(st.integers(0, 2))
+        return ['fs', draw(st.lists(st.sampled_from(k[1]), min_size=n_, max_size=n_, unique=True))]
     if tag == 'kt':
         out = []
         for part in k[1]:
@@ -199,11 +204,12 @@ def gen_from(draw, p):
                 continue
             if k[0] in ('type', 'pred', 'kt') and draw(st.integers(0, 9)) < 4:
                 continue
-            tk = key_sample(draw, k)
-            if repr(tk) in seen:
-                continue
-            seen.add(repr(tk))
-            out.append([tk, gen_from(draw, v)])
+            for _ in range(draw(st.integers(1, 3)) if k[0] == 'kf' else 1):
+                tk = key_sample(draw, k)
+                if repr(tk) in seen:
+                    continue
+                seen.add(repr(tk))
+                out.append([tk, gen_from(draw, v)])
         return ['dict', out]
     raise ValueError(p)
 
@@ -284,6 +290,8 @@ def build_key(k):
         return PREDS[k[1]]
     if tag == 'kt':
         return tuple(build_key(x) for x in k[1])
+    if tag == 'kf':
+        return frozenset(k[1])
     raise ValueError(k)
 
 
@@ -344,7 +352,7 @@ class RefRaise(Exception):
 
 def key_is_equality(k):
     tag = k[0]
-    if tag in ('lit',):
+    if tag in ('lit', 'kf'):
         return True
     if tag == 'kt':
         return all(key_is_equality(x) for x in k[1])
@@ -371,6 +379,13 @@ def ref_key(key, k):
     if tag == 'pred':
         if not PREDS[k[1]](key):
             raise Mis('key-pred')
+        return key
+    if tag == 'kf':
+        if not isinstance(key, frozenset):
+            raise Mis('key-type', True)
+        for el in key:
+            if not any(el == alt and type(el) is type(alt) or el == alt for alt in k[1]):
+                raise Mis('key-elem')
         return key
     if tag == 'kt':
         if not isinstance(key, tuple):
@@ -522,6 +537,22 @@ def deep_equal(a, b):
     return a == b
 
 
+def _containers(v, acc=None):
+    acc = [] if acc is None else acc
+    if isinstance(v, (list, dict)):
+        acc.append(v)
+        for x in (v.values() if isinstance(v, dict) else v):
+            _containers(x, acc)
+    elif isinstance(v, tuple):
+        for x in v:
+            _containers(x, acc)
+    return acc
+
+
+def _ids(v):
+    return set(id(c) for c in _containers(v))
+
+
 def depth(p):
     if p[0] in ('list', 'set', 'fset', 'tuple', 'and', 'or'):
         return 1 + max([depth(x) for x in p[1]] or [0])
@@ -608,6 +639,23 @@ def check(recipe, ctx):
                 if not (isinstance(e, TypeMatchError) and isinstance(e, TypeError)):
                     raise Mismatch('type-rule-not-typeerror', '%s: a type rule failed (%s) but the error is %s'
                                    % (where, m.why, type(e).__name__))
+    # the same spec object evaluated again: equal result, and no mutable container (e.g. an Optional default) shared
+    if got[0] == 'ok' and exp[0] == 'ok':
+        owned = _ids(target)
+        first = got[1]
+        mine = [c for c in _containers(first) if id(c) not in owned]
+        for c in mine:                       # the caller may do what it likes with its result
+            if isinstance(c, list):
+                c.append('caller-mutation')
+            elif isinstance(c, dict):
+                c['caller-mutation'] = 1
+        try:
+            second = glom.glom(target, spec)
+        except Exception as e:
+            raise Mismatch('second-evaluation', '%s: second evaluation of the same Match raised %r' % (where, e))
+        if not deep_equal(second, exp[1]):
+            raise Mismatch('results-share-state', '%s: after the caller modified the first result, the second evaluation '
+                           'of the same spec returned %r, expected %r' % (where, second, exp[1]))
     # matches() / verify() agree
     mt = Match(pat)
     try:
